@@ -511,6 +511,9 @@ class OnlineVarianceMetricAdapter(Adapter):
         transition.system.metric = PositiveDiagonalMatrix(var_est).inv
         # Resample momentum to account for altered distribution due to new metric
         for chain_state, rng in zip(chain_states, rngs, strict=True):
+            # Reassign position to clear any cached values which depend on the metric
+            # (for example Gram matrix for constrained systems) computed using old metric
+            chain_state.pos = chain_state.pos
             chain_state.mom = transition.system.sample_momentum(chain_state, rng)
 
 
@@ -641,4 +644,7 @@ class OnlineCovarianceMetricAdapter(Adapter):
         transition.system.metric = DensePositiveDefiniteMatrix(covar_est).inv
         # Resample momentum to account for altered distribution due to new metric
         for chain_state, rng in zip(chain_states, rngs, strict=True):
+            # Reassign position to clear any cached values which depend on the metric
+            # (for example Gram matrix for constrained systems) computed using old metric
+            chain_state.pos = chain_state.pos
             chain_state.mom = transition.system.sample_momentum(chain_state, rng)
